@@ -103,6 +103,7 @@ pub enum Op {
     Pu(usize),
     Su(usize),
     Ex(usize),
+    Fc,
 }
 
 fn parse_opt(t: &str) -> Option<usize> {
@@ -158,6 +159,7 @@ struct Case<'a, S: Service> {
     nsub: usize,
     nloan: usize,
     nsample: usize,
+    ipc: bool,
 }
 
 fn show_pl(v: u64) -> String {
@@ -192,6 +194,7 @@ impl<'a, S: Service> Case<'a, S> {
             nsub: 0,
             nloan: 0,
             nsample: 0,
+            ipc: core::any::type_name::<S>().contains("ipc"),
         }
     }
 
@@ -392,6 +395,18 @@ impl<'a, S: Service> Case<'a, S> {
                     Err(e) => Exec::Done(format!("O su {} = err:{:?}", h.id, e)),
                 },
             },
+            Op::Fc => {
+                if !self.ipc { return Exec::Done("O fc = -".into()); }
+                let tag = format!("c01_{}_", std::process::id());
+                let (mut c, mut d) = (0, 0);
+                if let Ok(rd) = std::fs::read_dir("/dev/shm") {
+                    for e in rd.flatten() {
+                        let n = e.file_name().to_string_lossy().to_string();
+                        if n.starts_with(&tag) { if n.ends_with(".connection") { c += 1; } else if n.ends_with(".data") { d += 1; } }
+                    }
+                }
+                Exec::Done(format!("O fc = c{}d{}", c, d))
+            }
             Op::Ex(slot) => match self.pubs[*slot].as_ref() {
                 None => Exec::NotApplicable,
                 Some(h) => {
@@ -442,6 +457,7 @@ impl<'a, S: Service> Case<'a, S> {
                 if n < 2 { return None; }
                 format!("rd {}", self.kth_sample(*s, n - 1).map(|i| self.samples[i].id)?)
             }
+            Op::Fc => "fc".into(),
         })
     }
 
@@ -572,7 +588,7 @@ fn run_hist<S: Service>(node: &Node<S>, variant: &str, cfg: &Cfg, name: &str, st
             "sc" => Op::Sc(case.nsub, parse_opt(&args[0]), parse_opt(&args[1])),
             "sd" => Op::Sd(a(0)),
             "ln" => Op::Ln(a(0)), "sn" => Op::Sn(a(0)), "rx" => Op::Rx(a(0)), "hs" => Op::Hs(a(0)),
-            "pu" => Op::Pu(a(0)), "su" => Op::Su(a(0)), "ex" => Op::Ex(a(0)),
+            "pu" => Op::Pu(a(0)), "su" => Op::Su(a(0)), "ex" => Op::Ex(a(0)), "fc" => Op::Fc,
             "wr" | "snd" | "ld" => {
                 let id = a(0);
                 match case.loans.iter().find(|l| l.id == id) {
